@@ -9,7 +9,16 @@ PROP = dict(
           "embed_label/embed_label_delta/absolute call+jmp (relocations, address table), const pool, flatten, resolve_cross_section_fixups, "
           "relocate_to_base, copy_flattened_data (also after reinit()); W2 the same programs through x86/a64 Builder + finalize; W3 x86/a64 "
           "Compiler functions with 3-32 virtual registers (spills), loops, branches, invoke, constants, stack slots, finalize; W4 "
-          "JitRuntime::add/release, JitAllocator alloc/write/shrink/release/query with option sets, VirtMem alloc/protect/dual mapping; "
+          "JitRuntime::add/release, JitAllocator alloc/write/shrink/release/query with option sets, VirtMem alloc/protect/dual mapping; W4 variant 3 "
+          "(ADD WINDOW): 2-5 generated x86-64 functions per runtime (absolute call/jmp -> address table, 1-4 sections, cross-section references, "
+          "embed_label jump tables, embed_label_delta tables with expression relocations, const pools, blobs up to 70000 bytes) are added to a "
+          "JitRuntime created with one of ten allocator option sets (single/dual mapping, multiple pools, fill, immediate release, no initial "
+          "padding, combinations); ONLY the requests made inside JitRuntime::add() are fault points - every heap and every virtual-memory position "
+          "of the fixed instantiations is enumerated, plus every pair of heap positions, heap x vm pairs, periodic and persistent plans. A failed "
+          "add() must return a null pointer and leave the allocator statistics exactly as before the call (a block created for the request may "
+          "stay as the pool's one empty block); it is repeated without faults (same holder / rebuilt holder) and must succeed; every installed "
+          "function is decoded (absolute targets reached directly or through an address-table slot), compared with the holder's sections and "
+          "CALLED (6 arguments) against the model of its program; after releasing everything allocation_count is 0; "
           "W5 ArenaVector/ArenaHash/ArenaString/String/ConstPool/ArenaBitSet/Arena::dup sharing one Arena. HISTORIES (W1-W3, W5; cfg[8]): "
           "generation A (a prefix of the program) -> soft reset (CodeHolder::reset(kSoft)+init+attach or CodeHolder::reinit(); W5: every "
           "container reset + Arena::reset(kSoft)) -> larger generation B on the SAME objects, all inside the fault window, optionally with "
@@ -31,6 +40,8 @@ PROP = dict(
           "an API call return an error; distinct = distinct case text"),
     assumptions=["ASan+UBSan build with ASMJIT_ASSERT active; -DASMJIT_VERIF arena hook H1 (add-only) is the only change to the library",
                  "heap / virtual-memory faults are injected only into calls made from AsmJit's own objects (linker --wrap); libc/libstdc++ internals never fail",
+                 "W4 variant 3 executes the code installed by JitRuntime::add() in the worker process (after the image was compared with the holder's sections and every absolute call/jmp was decoded); a semantic failure of its FAULT-FREE reference run is reported (w4-faultfree-*), not skipped",
+                 "after a failed JitRuntime::add() adding the same CodeHolder again is in the domain (allocation failures happen before relocate_to_base() patches anything); half of the instantiations rebuild the holder instead",
                  "every AsmJit return value is checked and the workload stops at the first error (a 'continue after every error' mode exists for W1/W5 where every later call validates its arguments; the continue window of W1-W3 survives only kOutOfMemory of its instruction calls)",
                  "an inline comment whose copy cannot be allocated is dropped by BaseBuilder::_emit while the call returns kOk: treated as a lost annotation (counted, modelled), not as wrong code",
                  "process-wide one-time probes of virtmem.cpp (hardened runtime, memfd/shm strategy) are warmed up before faults are armed",
@@ -41,7 +52,7 @@ PROP = dict(
 META = dict(
     engine="rapidcheck + deterministic enumeration (vh_enum)",
     technique="fault injection: arena hook + linker-wrapped malloc/realloc/calloc/mmap/mprotect/ftruncate/memfd_create; enumeration of every fault position + generated multi-failure plans",
-    level_text=("Fault enumeration: for fixed instantiations of each of the five workloads (both architectures, four JIT allocator option sets) "
+    level_text=("Fault enumeration: for fixed instantiations of each of the five workloads (both architectures, four JIT allocator option sets; ten for the JitRuntime::add() window) "
                 "EVERY arena, heap and virtual-memory request position k of a clean run is failed once (exhaustive for those instantiations), "
                 "plus persistent failures per requesting function and from position k on; rapidcheck adds generated instantiations x random "
                 "single/multi-failure plans. Histories put a soft reset / reinit and the re-emission of a larger program into the fault window "
